@@ -694,6 +694,9 @@ func wireGenResp(k *kernel.Kernel, op *wireOp, proto int) wireResp {
 	}
 	if proto >= 4 && tp.Chance(1, 5) {
 		r.payload = map[string][]byte{"srv": []byte(op.token)}
+		if tp.Chance(1, 2) {
+			r.payload["empty"] = []byte{} // a value of length zero is not a null
+		}
 		k.Fault("resp.custom-payload")
 	}
 	if op.trace {
@@ -1158,6 +1161,10 @@ func wireRunOp(k *kernel.Kernel, sess *gocql.Session, op *wireOp, proto int, tra
 			k.Violate("C04", "C04/custom-payload", "%s: GetCustomPayload() = %v, the frame carried %v", op.token, gp, r.payload)
 		}
 		for key, v := range r.payload {
+			if g, ok := gp[key]; ok && len(v) == 0 && v != nil && g == nil {
+				k.Violate("C04", "C04/custom-payload", "%s: payload key %q carried a value of length zero, the driver reports a null", op.token, key)
+				return
+			}
 			if !bytes.Equal(gp[key], v) {
 				k.Violate("C04", "C04/custom-payload", "%s: payload key %q = % x, the frame carried % x", op.token, key, gp[key], v)
 			}
